@@ -585,7 +585,7 @@ package autodiff
 
 // composite operations (jet-level symbolic execution over the proved primitives)
 //@ for $R,$T in (Real64,@), (Real32,+)
-//@ propsdefault C01$T C02$T C08$T
+//@ propsdefault C01$T C02$T C08$T C09$T
 //@ func (*$R).Logistic
 //@   jetspec (1 / (((1 / exp(x)) + 1)))
 //@   jetd @dx (((1 / exp(x))) / ((((1 / exp(x)) + 1) * ((1 / exp(x)) + 1))))
@@ -627,6 +627,84 @@ package autodiff
 //@   jetalias c=a
 //@   jetalias c=b
 //@   jetalias c=a=b
+
+//@ func (*$R).Log1pExp
+//   log(1 + exp(x)): exp(x) below -37 (relative error < exp(-37)), exact in between, x + exp(-x) up to 33.3 (the float64 nearest to it, as in the code), x above (error < exp(-33.3)); receiver == operand is not claimed
+//@   jetspec ite(x <= (0 - 37.0), exp(x), ite(x <= 18.0, log((exp(x) + 1)), ite(x <= (2343279181116211.0 / 70368744177664.0), (x + (1 / exp(x))), x)))
+//@   jetd @dx ite(x <= (0 - 37.0), exp(x), ite(x <= 18.0, ((exp(x)) / ((exp(x) + 1))), ite(x <= (2343279181116211.0 / 70368744177664.0), (1 + ((0 - 1) * (1 / exp(x)))), 1)))
+//@   jetd @dxx ite(x <= (0 - 37.0), exp(x), ite(x <= 18.0, (((1 + (((0 - 1) * exp(x)) / ((exp(x) + 1)))) * exp(x)) / ((exp(x) + 1))), ite(x <= (2343279181116211.0 / 70368744177664.0), (1 / exp(x)), 0)))
+
+//@ func (*$R).Abs [also: (*$R).ABS]
+//@   jetspec ite(x >= 0, x, 0 - x)
+//@   jetd @dx ite(x > 0, 1, ite(x < 0, 0 - 1, 0))
+//@   jetd @dxx 0
+//@   jetalias c=a
+
+//@ end
+
+// the same composites on the plain float scalars (value only)
+//@ for $S,$T in (Float64,@), (Float32,+)
+//@ propsdefault C02$T C09$T
+//@ func ($S).Logistic
+//@   jetvalueonly
+//@   jetspec (1 / (((1 / exp(x)) + 1)))
+//@   jetd @dx (((1 / exp(x))) / ((((1 / exp(x)) + 1) * ((1 / exp(x)) + 1))))
+//@   jetd @dxx ((((-1) + ((2 * (1 / exp(x))) / (((1 / exp(x)) + 1)))) * (1 / exp(x))) / ((((1 / exp(x)) + 1) * ((1 / exp(x)) + 1))))
+//@   jetalias c=a
+
+//@ func ($S).Sigmoid
+//@   jetvalueonly
+//@   jetspec (1 / (((1 / exp(x)) + 1)))
+//@   jetd @dx (((1 / exp(x))) / ((((1 / exp(x)) + 1) * ((1 / exp(x)) + 1))))
+//@   jetd @dxx ((((-1) + ((2 * (1 / exp(x))) / (((1 / exp(x)) + 1)))) * (1 / exp(x))) / ((((1 / exp(x)) + 1) * ((1 / exp(x)) + 1))))
+//@   jetalias c=a
+
+//@ func ($S).Sqrt
+//@   jetvalueonly
+//@   jetspec sqrt(x)
+//@   jetrequires x > 0
+//@   jetd @dx (((1.0/2.0)) / (sqrt(x)))
+//@   jetd @dxx (((0 - 1.0/4.0)) / (pow(x, (3.0/2.0))))
+//@   jetalias c=a
+
+//@ func ($S).LogAdd
+//@   jetvalueonly
+//@   jetspec log((exp(x) + exp(y)))
+//@   jetd @dx ((exp(x)) / ((exp(x) + exp(y))))
+//@   jetd @dy ((exp(y)) / ((exp(x) + exp(y))))
+//@   jetd @dxx (((1 + (((0 - 1) * exp(x)) / ((exp(x) + exp(y))))) * exp(x)) / ((exp(x) + exp(y))))
+//@   jetd @dxy (((0 - 1) * exp(x) * exp(y)) / (((exp(x) + exp(y)) * (exp(x) + exp(y)))))
+//@   jetd @dyy (((1 + (((0 - 1) * exp(y)) / ((exp(x) + exp(y))))) * exp(y)) / ((exp(x) + exp(y))))
+//@   jetalias c=a
+//@   jetalias c=b
+//@   jetalias c=a=b
+
+//@ func ($S).LogSub
+//@   jetvalueonly
+//@   jetspec log((exp(x) + ((0 - 1) * exp(y))))
+//@   jetrequires x > y
+//@   jetd @dx ((exp(x)) / ((exp(x) + ((0 - 1) * exp(y)))))
+//@   jetd @dy (((0 - 1) * exp(y)) / ((exp(x) + ((0 - 1) * exp(y)))))
+//@   jetd @dxx (((1 + (((0 - 1) * exp(x)) / ((exp(x) + ((0 - 1) * exp(y)))))) * exp(x)) / ((exp(x) + ((0 - 1) * exp(y)))))
+//@   jetd @dxy ((exp(x) * exp(y)) / (((exp(x) + ((0 - 1) * exp(y))) * (exp(x) + ((0 - 1) * exp(y))))))
+//@   jetd @dyy (((0 - 1) * (1 + ((exp(y)) / ((exp(x) + ((0 - 1) * exp(y)))))) * exp(y)) / ((exp(x) + ((0 - 1) * exp(y)))))
+//@   jetalias c=a
+//@   jetalias c=b
+//@   jetalias c=a=b
+
+//@ func ($S).Log1pExp
+//   log(1 + exp(x)): exp(x) below -37 (relative error < exp(-37)), exact in between, x + exp(-x) up to 33.3 (the float64 nearest to it, as in the code), x above (error < exp(-33.3)); receiver == operand is not claimed
+//@   jetvalueonly
+//@   jetspec ite(x <= (0 - 37.0), exp(x), ite(x <= 18.0, log((exp(x) + 1)), ite(x <= (2343279181116211.0 / 70368744177664.0), (x + (1 / exp(x))), x)))
+//@   jetd @dx ite(x <= (0 - 37.0), exp(x), ite(x <= 18.0, ((exp(x)) / ((exp(x) + 1))), ite(x <= (2343279181116211.0 / 70368744177664.0), (1 + ((0 - 1) * (1 / exp(x)))), 1)))
+//@   jetd @dxx ite(x <= (0 - 37.0), exp(x), ite(x <= 18.0, (((1 + (((0 - 1) * exp(x)) / ((exp(x) + 1)))) * exp(x)) / ((exp(x) + 1))), ite(x <= (2343279181116211.0 / 70368744177664.0), (1 / exp(x)), 0)))
+
+//@ func ($S).Abs [also: ($S).ABS]
+//@   jetvalueonly
+//@   jetspec ite(x >= 0, x, 0 - x)
+//@   jetd @dx ite(x > 0, 1, ite(x < 0, 0 - 1, 0))
+//@   jetd @dxx 0
+//@   jetalias c=a
 
 //@ end
 
